@@ -44,6 +44,12 @@ func main() {
 		}
 		return
 	}
+	if len(os.Args) >= 4 && os.Args[1] == "c18first" {
+		// worker of C18: first writes of this process from eight goroutines at once
+		seed, _ := strconv.ParseInt(os.Args[3], 10, 64)
+		props.C18FirstUse(os.Args[2], seed)
+		return
+	}
 	if len(os.Args) >= 2 && os.Args[1] == "c20first" {
 		// worker of C20: this process's first conversions, made from many goroutines at once
 		for _, l := range props.C20FirstUseLines() {
